@@ -43,6 +43,12 @@ TEXT = {
     "C18": dict(technique="property-based testing (rapid): metamorphic - three spellings of an option set (compile option, leading (?O), wrapping (?O:...)) and scoped vs switch-style groups agree",
                 text="F-core ASTs with nested on/off option groups and corpus patterns x all 32 subsets of {i,m,s,n,x} x inputs x every offset: the three spellings give equal matches, captures, group numbers and names; (?o:X) agrees with (?:(?o)X). Non-trivial cases are those where O actually changes the result (measured against O = {}).",
                 note="Pattern text is x-safe; insignificant blanks/comments are present exactly where x is in effect. Option groups directly inside an expression conditional are rejected by the parser (inherited .NET restriction) and are outside the domain.", ref="§6 C18"),
+    "C19": dict(technique="property-based testing (rapid) + native go fuzzing: round-trip Unescape(Escape(s)) == s and literal-match predicate with one-edit mutants",
+                text="Strings over all of Unicode (weighted to metacharacters, whitespace, controls, non-printable and unassigned code points below and above U+FFFF) x option subsets that keep literal meaning: round trip, \\A(?:Escape(s))\\z compiles, matches s and rejects up to 8 one-edit mutants.",
+                note="Domain = valid UTF-8 strings. 'Matches nothing else' is sampled through mutants, not proved.", ref="§6 C19"),
+    "C20": dict(technique="property-based testing (rapid): metamorphic - case flips of input letters and of pattern letters / class members / range endpoints leave the outcome unchanged",
+                text="F-core and F-accel ASTs compiled with IgnoreCase x inputs x random flip masks x one case-flipped printing of the pattern, through rune and string entry points (the raw-string prefix filter folds ASCII on its own): position, length and all captures are invariant.",
+                note="Letters restricted to fold orbits of size two (ASCII without k/s, Latin-1, Greek, Cyrillic pairs), as the property states.", ref="§6 C20"),
 }
 
 PENDING = "check not built yet in this session (work in progress; see DESIGN.md section 6 for the planned generated-input check)"
